@@ -25,7 +25,7 @@ ASSUMPTIONS = [
 SONG = ("Song", ["Resolution = 100", 'Name = "n"'])
 SYNC = ("SyncTrack", ["0 = TS 4", "0 = B 120000", "50 = B 60000", "120 = TS 3"])
 EVENTS = ("Events", ['0 = E "section a"', '60 = E "lyric b"'])
-UNIVERSE = ("ExpertSingle", "HardSingle", "ExpertDoubleBass", "EasyDrums", "HardDrums", "ExpertDrums")
+UNIVERSE = ("ExpertSingle", "HardSingle", "ExpertDoubleBass", "EasyDrums", "HardDrums", "ExpertDrums", "MediumGHLCoop", "EasyKeyboard")
 ABSENT = ("KEYS", "MEDIUM")
 
 REPLACEMENTS = (
@@ -54,7 +54,7 @@ def text_for(fm, U, bodies=None):
 
 
 def plan(tier, seed):
-    U = 6
+    U = 6 if tier == "quick" else 8
     shards = [("sel", fm, U) for fm in range(1 << U)]
     shards += [("nonint", j, U) for j in range(U)]
     return dict(shards=shards, bounds=dict(universe=list(UNIVERSE[:U]), absent_pair=list(ABSENT)), budget_s=600)
